@@ -24,6 +24,7 @@ type c12Scen struct {
 	Crowded    bool        `json:"service0_crowded"`
 	Rendezvous bool        `json:"first_request_of_client0_waits_for_first_of_client1"`
 	Preempt    int         `json:"preempt_permille"`
+	NoTrim     bool        `json:"trim_right_slash_off,omitempty"`
 	Svcs       []SvcSpec   `json:"services"` // Routes = initial routes followed by pool routes
 	InitR      map[int]int `json:"initial_route_count"`
 	Members    []int       `json:"initial_members"`
@@ -208,11 +209,13 @@ func genC12(x *Ctx) *c12Scen {
 		})
 		sc.Clients = append(sc.Clients, ps)
 	})
+	sc.NoTrim = tp.Chance(100)
 	return sc
 }
 
 func runC12(x *Ctx) {
 	sc := genC12(x)
+	restful.TrimRightSlashEnabled = !sc.NoTrim
 	x.Res.Scenario = sc
 	x.Res.ScenHash = sim.HashString(jsonStr(sc))
 	s := x.Sim
